@@ -64,19 +64,24 @@ impl PublicInput {
         z: Felt,
         alpha: Felt,
         public_memory_column_size: Felt,
-    ) -> Felt {
+    ) -> Option<Felt> {
         let (pages_product, total_length) = self.get_public_memory_product(z, alpha);
 
         // Pad and divide
         let numerator = z.pow_felt(&public_memory_column_size);
         let padded = z - (self.padding_addr + alpha * self.padding_value);
 
-        assert!(total_length <= public_memory_column_size);
+        // More public memory cells than the public memory column holds.
+        if total_length > public_memory_column_size {
+            return None;
+        }
         let denominator_pad = padded.pow_felt(&(public_memory_column_size - total_length));
 
-        numerator
-            .field_div(&NonZeroFelt::from_felt_unchecked(pages_product))
-            .field_div(&NonZeroFelt::from_felt_unchecked(denominator_pad))
+        Some(
+            numerator
+                .field_div(&NonZeroFelt::from_felt_unchecked(pages_product))
+                .field_div(&NonZeroFelt::from_felt_unchecked(denominator_pad)),
+        )
     }
     // Returns the product of all public memory cells.
     pub fn get_public_memory_product(&self, z: Felt, alpha: Felt) -> (Felt, Felt) {
